@@ -25,7 +25,7 @@ def _run(seed):
         if r < 0.75:
             mkt = rng.random() < 0.3
             o = Order(agent_id=0, market_id=0, is_buy=rng.random() < 0.5, kind=MARKET_ORDER if mkt else LIMIT_ORDER, volume=rng.randint(1, 3),
-                      price=None if mkt else (float(rng.randint(8, 12)) if not fine else (base + rng.randint(-2, 2)) * tick + rng.choice([0.0, 0.0, 0.3 * tick, -0.3 * tick])),
+                      price=None if mkt else (float(rng.randint(8, 12) if seed % 16 != 4 else rng.randint(-2, 2)) if not fine else (base + rng.randint(-2, 2)) * tick + rng.choice([0.0, 0.0, 0.3 * tick, -0.3 * tick])),
                       ttl=rng.choice([None, 1, 2]))
             m._add_order(o); live.append(o)
         elif r < 0.85 and live:
